@@ -498,6 +498,55 @@ def rule_H(ck, units):
                   '' if not bad else '%s::%s() reports the number of %s of the wrapped matrix (at %s)' % (f.cls, own if name != 'get' else 'get', bad[0][1], f.where(bad[0][0])))
 
 
+def rule_I(ck, units, floor=2):
+    """an adapter iterator that assembles its current value entry by entry (a block gathered from several scalar rows) starts every assembly
+    from a freshly assigned value: each member that is written element-wise in a member function is assigned as a whole earlier on every
+    path of that function - otherwise entries of the previous block survive in positions the new block does not store"""
+    ck.rule('I.gathered-value-reset', 'in the matrix adapters, a data member that a member function fills element by element (cur_val(i, j) = ..) is assigned as a whole (reset) before, on every path '
+                                      'to the first element write of that function', floor)
+    done = set()
+    for u in units.values():
+        for f in u.funcs:
+            if f.cfg is None or not f.cls or not f.cls.startswith('amgcl::adapter::') or not f.rel().startswith('amgcl/'):
+                continue
+            loc = locate(f)
+            elems, kills = {}, {}
+            for n in f.nodes.values():
+                if n['k'] == 'bin' and n['op'] == '=' and n['i'] in loc:
+                    lhs = unwrap(n['x'])
+                    base = None
+                    if lhs is not None and lhs['k'] == 'call' and lhs.get('op') == '()' and lhs.get('obj') is not None:
+                        base = unwrap(lhs['obj'])
+                    elif lhs is not None and lhs['k'] == 'idx':
+                        base = unwrap(lhs['b'])
+                    if base is not None and base['k'] == 'mem' and (base.get('b') is None or unwrap(base['b'])['k'] == 'this'):
+                        t = u.type(u.decls[base['d']].get('t')) if isinstance(base.get('d'), int) else ''
+                        if 'static_matrix' in t or 'Matrix<' in t or 'val_type' in t or 'BlockType' in t:
+                            elems.setdefault(base['n'], []).append(n)
+                    if lhs is not None and lhs['k'] == 'mem' and (lhs.get('b') is None or unwrap(lhs['b'])['k'] == 'this'):
+                        kills.setdefault(lhs['n'], []).append(n)
+            for m, ws in elems.items():
+                key = '%s|%s|%s' % (f.cls, 'ctor' if f.j.get('ctor') else f.q.split('::')[-1], m)
+                if key in done:
+                    continue
+                done.add(key)
+                kb = {loc[k_['i']] for k_ in kills.get(m, [])}
+                target = min(ws, key=lambda n: n['i'])
+                tb, tpos = loc[target['i']]
+                # must-analysis: is a whole assignment of m executed on every path from entry to the first element write?
+                cfg = f.cfg
+
+                def transfer(b, st):
+                    if any(bb == b for bb, _ in kb):
+                        return frozenset({'K'})
+                    return st
+                IN, OUT = cfg.forward(frozenset(), transfer, join=lambda a, b_: a & b_)
+                ok = 'K' in IN.get(tb, frozenset()) or any(bb == tb and pp < tpos for bb, pp in kb)
+                ck.ob('I.gathered-value-reset', key, f.where(target), ok,
+                      '' if ok else 'in %s: the member `%s` is filled element by element from %s on without being assigned as a whole first: entries of the previously gathered value remain where the new one stores nothing' % (
+                          f.full[:80], m, f.where(target)))
+
+
 def rule_E_adapter(ck, units):
     """the adapter itself: its row iterator gathers a block by advancing each scalar row's cursor while col < end of the current block
     column - correct only for sorted rows - and the adapter neither sorts nor checks its input"""
@@ -536,5 +585,6 @@ def main(tier):
     rule_F(ck, units, cu['controls'])
     rule_G(ck, cu['controls'])
     rule_H(ck, units)
+    rule_I(ck, units)
     ck.assumptions += ['that adapters expose the same entries (rows/cols/nonzeros, spmv agreement) and the algebra of reorder / scaled_problem are not decided']
     return ck.finish()
